@@ -81,7 +81,7 @@ def decorate(g, rng, sit, s_tags=True):
                 if k not in names:
                     names.add(k)
                     keep.append(t)
-            n.extra = keep
+            n.extra = ggaf.no_trailing_blank(keep)  # the extra tags are the last fields of the S line
             for t in keep:
                 p = t.split(":", 2)
                 if p[1] == "Z" and ":" in p[2]:
